@@ -4,10 +4,35 @@ from checks.c05 import registry_histories
 LEVEL = "model_checking"
 
 
+def converters(ck):
+    """the conversion goroutines of a stream must end with it: the loop / Close protocol as a model, and the schedule
+    'Close between the loop condition and Pop' forced on the real converters through the hook conv.loop"""
+    import os
+    from vlib import Infra
+    ck.model(ck.tlc("fanout", "ConvLoop", "Conv_push.cfg", workers=2, label="converter loop: Close wakes by queueing an element (safety and liveness)"))
+    neg = ck.tlc("fanout", "ConvLoop", "Conv_signal.cfg", workers=2, must_pass=False, label="negative control: Close wakes with a bare signal (as found before 2c6d1fe)")
+    if "NeverParkedForGood" not in neg.violated:
+        raise Infra("negative control failed: a bare signal does not park the converter goroutine in ConvLoop.tla")
+    tr = os.path.join(ck.tmp, "conv.ndjson")
+    ck.run_driver("./conv", "^TestConverters$", {"VERIF_OUT": tr}, timeout=600)
+    n = sum(1 for _ in open(tr))
+    if n < 7:
+        raise Infra("converter leg produced %d records" % n)
+    rt = ck.tlc("fanout", "ConvTrace", "ConvTrace.cfg", workers=1, env={"VERIF_TRACE": tr}, label="acceptance of the converter leg")
+    if rt.distinct != n + 1:
+        raise Infra("trace validation consumed %d of %d" % (rt.distinct - 1, n))
+    ck.cov["converter_leg"] = {"records": n}
+    ck.cov["traces_validated_against_impl"] += 6
+    for b in rt.printed("@BAD"):
+        ev = b["ev"]
+        ck.violation("%s:%s:%s" % (b["why"], ev.get("kind", "stream"), ev.get("schedule", "")), "%s: %s" % (b["why"], ev), b)
+
+
 def run(ck):
     q = ck.quick()
     fc.run_family(ck, "C03", ["close2", "stopclose1", "flvclose2", "backlogstop1", "replace2"] if q else list(fc.fs.SCENARIOS),
                   ["C03"], 200 if q else 2000, 600 if q else 20000)
+    converters(ck)
     # the ways a stream ends at registry level (unregister of a replaced publisher, replacement, admin close, idle
     # close) and attaching to a stream that has already ended: Registry.tla histories; only what concerns the
     # release of consumers and the closing of streams is attributed to C03
@@ -15,7 +40,7 @@ def run(ck):
 
 
 META = {
-    "text": "Same machinery as C01, with the closer and stopper processes: TLC explores every interleaving of attach / StopConsume / Stream.Close / consumer-goroutine steps (including the window between the closed-check and cond.Wait, and between Load and Delete in Remove) and checks count >= 0, count = registered, and at quiescence transport closed + goroutine gone for every attached consumer of a closed stream / every stopped consumer; schedules are replayed on the real code, quiescence and parked goroutines are read from goroutine states, and the census is validated by TLC.",
+    "text": "Same machinery as C01, with the closer and stopper processes: TLC explores every interleaving of attach / StopConsume / Stream.Close / consumer-goroutine steps (including the window between the closed-check and cond.Wait, and between Load and Delete in Remove) and checks count >= 0, count = registered, and at quiescence transport closed + goroutine gone for every attached consumer of a closed stream / every stopped consumer; schedules are replayed on the real code, quiescence and parked goroutines are read from goroutine states, and the census is validated by TLC. A converter leg covers the three conversion goroutines: ConvLoop.tla (loop / Close protocol, bare signal as negative control) and, on the real rtp.Demuxer / flv.Muxer / mpegts.Muxer, the schedule in which Close runs while the goroutine stands between its loop condition and the blocking Pop (hook conv.loop), plus 200 free-running NewStream / Close cycles.",
     "note": "Trusted: TLC, FanoutProp.tla as transcription of the statement, the gate scheduler (one process runs between two hooks; quiescence from goroutine states), recording consumers (payload compared byte-wise with a copy taken before publication). Transport adapters (TCP/UDP/WS/FLV writers) are covered by the server-level checks, not here.",
     "technique": "TLA+ implementation-level model checked by TLC against property invariants; TLC-generated schedules replayed on real code via hook gates; TLC trace validation (property level and step level)",
     "specs": ["fanout"],
